@@ -106,6 +106,8 @@ enum Mutation {
 	Truncate(String, u64),
 	BitFlip(String, u64, u8),
 	Overwrite(String, u64, Vec<u8>),
+	/// zero-filled trailer (checksum) of a record plus one flipped bit in its body
+	ZeroTrailerAndFlip(String, u64, u64, u8),
 	Append(String, Vec<u8>),
 	Duplicate(String),
 	Swap(String, String),
@@ -118,7 +120,7 @@ impl Mutation {
 	fn class(&self) -> &'static str {
 		match self {
 			Mutation::Truncate(..) => "mut_truncate",
-			Mutation::BitFlip(..) | Mutation::Overwrite(..) => "mut_bitflip",
+			Mutation::BitFlip(..) | Mutation::Overwrite(..) | Mutation::ZeroTrailerAndFlip(..) => "mut_bitflip",
 			Mutation::Append(..) => "mut_append",
 			_ => "mut_file_level",
 		}
@@ -127,7 +129,8 @@ impl Mutation {
 		match self {
 			Mutation::Truncate(f, x) => format!("truncate {} at {}", f, x),
 			Mutation::BitFlip(f, x, b) => format!("flip bit {} of byte {} in {}", b, x, f),
-			Mutation::Overwrite(f, x, d) => format!("overwrite {} bytes at {} in {}", d.len(), x, f),
+			Mutation::Overwrite(f, x, d) => format!("overwrite {} bytes at {} in {} with {:02x}..", d.len(), x, f, d.first().copied().unwrap_or(0)),
+			Mutation::ZeroTrailerAndFlip(f, end, x, b) => format!("zero the 4 checksum bytes before {} and flip bit {} of byte {} in {}", end, b, x, f),
 			Mutation::Append(f, d) => format!("append {} bytes to {}", d.len(), f),
 			Mutation::Duplicate(f) => format!("duplicate {} under a new name", f),
 			Mutation::Swap(a, b) => format!("swap the names of {} and {}", a, b),
@@ -149,41 +152,68 @@ fn free_log_name(dir: &Path) -> String {
 	"log9999".into()
 }
 
-fn apply(m: &Mutation, img: &Path, stale: &Path) -> std::io::Result<()> {
+/// Returns false when the mutation did not change any byte (e.g. zero-filling zeros).
+fn apply(m: &Mutation, img: &Path, stale: &Path) -> std::io::Result<bool> {
+	let changed = apply_inner(m, img, stale)?;
+	Ok(changed)
+}
+
+fn apply_inner(m: &Mutation, img: &Path, stale: &Path) -> std::io::Result<bool> {
 	match m {
 		Mutation::Truncate(f, x) => {
 			let fh = std::fs::OpenOptions::new().write(true).open(img.join(f))?;
-			fh.set_len(*x)
+			fh.set_len(*x)?;
+			Ok(true)
 		},
 		Mutation::BitFlip(f, x, b) => {
 			let mut d = std::fs::read(img.join(f))?;
 			d[*x as usize] ^= 1 << b;
-			std::fs::write(img.join(f), d)
+			std::fs::write(img.join(f), d)?;
+			Ok(true)
 		},
 		Mutation::Overwrite(f, x, data) => {
 			let mut d = std::fs::read(img.join(f))?;
+			let before = d.clone();
 			for (i, b) in data.iter().enumerate() {
 				if (*x as usize + i) < d.len() {
 					d[*x as usize + i] = *b;
 				}
 			}
-			std::fs::write(img.join(f), d)
+			let changed = d != before;
+			std::fs::write(img.join(f), d)?;
+			Ok(changed)
+		},
+		Mutation::ZeroTrailerAndFlip(f, end, x, b) => {
+			let mut d = std::fs::read(img.join(f))?;
+			let e = *end as usize;
+			if e >= 4 && e <= d.len() {
+				for i in e - 4..e {
+					d[i] = 0;
+				}
+			}
+			if (*x as usize) < d.len() {
+				d[*x as usize] ^= 1 << b;
+			}
+			std::fs::write(img.join(f), d)?;
+			Ok(true)
 		},
 		Mutation::Append(f, data) => {
 			let mut d = std::fs::read(img.join(f))?;
 			d.extend_from_slice(data);
-			std::fs::write(img.join(f), d)
+			std::fs::write(img.join(f), d)?;
+			Ok(true)
 		},
-		Mutation::Duplicate(f) => std::fs::copy(img.join(f), img.join(free_log_name(img))).map(|_| ()),
+		Mutation::Duplicate(f) => std::fs::copy(img.join(f), img.join(free_log_name(img))).map(|_| true),
 		Mutation::Swap(a, b) => {
 			let t = img.join("swap.tmp");
 			std::fs::rename(img.join(a), &t)?;
 			std::fs::rename(img.join(b), img.join(a))?;
-			std::fs::rename(&t, img.join(b))
+			std::fs::rename(&t, img.join(b))?;
+			Ok(true)
 		},
-		Mutation::Delete(f) => std::fs::remove_file(img.join(f)),
-		Mutation::ExtraFile(d) => std::fs::write(img.join(free_log_name(img)), d),
-		Mutation::Stale => std::fs::copy(stale, img.join(free_log_name(img))).map(|_| ()),
+		Mutation::Delete(f) => std::fs::remove_file(img.join(f)).map(|_| true),
+		Mutation::ExtraFile(d) => std::fs::write(img.join(free_log_name(img)), d).map(|_| true),
+		Mutation::Stale => std::fs::copy(stale, img.join(free_log_name(img))).map(|_| true),
 	}
 }
 
@@ -398,6 +428,41 @@ pub fn run(ctx: &Ctx, rep: &mut Report, rec: &Recorded, work: &Scratch, rng: &mu
 			let n_bytes = rng.range(2, 64) as usize;
 			muts.push((Mutation::Overwrite(f.clone(), x, rng.bytes(n_bytes)), limit_at(f, x)));
 		}
+		// zero-filled and ff-filled ranges (lost / erased sectors)
+		for _ in 0..ctx.tier.pick(3, 30) {
+			let x = rng.below(*len);
+			let n_bytes = rng.range(1, 600) as usize;
+			let fill = if rng.chance(2, 3) { 0u8 } else { 0xff };
+			muts.push((Mutation::Overwrite(f.clone(), x, vec![fill; n_bytes]), limit_at(f, x)));
+		}
+		// a record whose checksum field reads zero and whose body is damaged
+		for r in records.iter().filter(|r| &r.file == f) {
+			if r.end - r.start > 16 && (ctx.tier == Tier::Thorough || rng.chance(1, 2)) {
+				let x = r.start + 9 + rng.below(r.end - r.start - 14);
+				muts.push((Mutation::ZeroTrailerAndFlip(f.clone(), r.end, x, rng.below(8) as u8), r.commits_before));
+			}
+		}
+		// two-byte entry markers of value-table entries inside the records (tombstone ff ff,
+		// multipart fd ff / fe ff / fd 7f): every bit of both bytes
+		{
+			let data = std::fs::read(base.join(f)).unwrap_or_default();
+			let mut hits: Vec<u64> = vec![];
+			for i in 0..data.len().saturating_sub(1) {
+				if matches!((data[i], data[i + 1]), (0xff, 0xff) | (0xfd, 0xff) | (0xfe, 0xff) | (0xfd, 0x7f)) {
+					hits.push(i as u64);
+				}
+			}
+			if ctx.tier == Tier::Quick && hits.len() > 4 {
+				rng.shuffle(&mut hits);
+				hits.truncate(4);
+			}
+			for h in hits {
+				for b in 0..8u8 {
+					muts.push((Mutation::BitFlip(f.clone(), h, b), limit_at(f, h)));
+					muts.push((Mutation::BitFlip(f.clone(), h + 1, b), limit_at(f, h + 1)));
+				}
+			}
+		}
 	}
 	// appended tails on the last log (by record order)
 	if let Some(last) = records.last().map(|r| r.file.clone()) {
@@ -424,11 +489,11 @@ pub fn run(ctx: &Ctx, rep: &mut Report, rec: &Recorded, work: &Scratch, rng: &mu
 	if stale.exists() {
 		muts.push((Mutation::Stale, n));
 	}
-	if ctx.tier == Tier::Quick && muts.len() > 160 {
+	if ctx.tier == Tier::Quick && muts.len() > 200 {
 		// keep all file-level ones, sample the byte-level ones
 		let (file_level, mut byte_level): (Vec<_>, Vec<_>) = muts.into_iter().partition(|(m, _)| m.class() == "mut_file_level" || m.class() == "mut_append");
 		rng.shuffle(&mut byte_level);
-		byte_level.truncate(130);
+		byte_level.truncate(170);
 		muts = file_level;
 		muts.extend(byte_level);
 	}
@@ -454,14 +519,19 @@ pub fn run(ctx: &Ctx, rep: &mut Report, rec: &Recorded, work: &Scratch, rng: &mu
 		ctx.progress();
 		child::phase("");
 		pv::scratch::copy_dir(&base, &img).expect("copy");
-		if apply(m, &img, &stale).is_err() {
-			continue
+		match apply(m, &img, &stale) {
+			Ok(true) => {},
+			Ok(false) => {
+				rep.count("mutations_without_effect_skipped", 1);
+				continue
+			},
+			Err(_) => continue,
 		}
 		rep.count("mutations", 1);
 		rep.count(m.class(), 1);
 		let lim = (*limit).max(j0);
 		let which_record = match m {
-			Mutation::Truncate(f, x) | Mutation::BitFlip(f, x, _) | Mutation::Overwrite(f, x, _) => {
+			Mutation::Truncate(f, x) | Mutation::BitFlip(f, x, _) | Mutation::Overwrite(f, x, _) | Mutation::ZeroTrailerAndFlip(f, _, x, _) => {
 				records.iter().position(|r| &r.file == f && r.end > *x).map(|i| if records[i].start > *x { "boundary" } else if *x < records[i].start + 9 { "header" } else if *x + 5 >= records[i].end { "trailer" } else { "payload" })
 			},
 			_ => None,
@@ -487,7 +557,7 @@ pub fn run(ctx: &Ctx, rep: &mut Report, rec: &Recorded, work: &Scratch, rng: &mu
 					Mutation::Swap(..) => "log_files_swapped",
 					Mutation::ExtraFile(_) => "extra_log_file",
 					Mutation::Truncate(..) => "log_truncated",
-					Mutation::BitFlip(..) | Mutation::Overwrite(..) => "log_bytes_damaged",
+					Mutation::BitFlip(..) | Mutation::Overwrite(..) | Mutation::ZeroTrailerAndFlip(..) => "log_bytes_damaged",
 					Mutation::Append(..) => "log_tail_appended",
 				};
 				rep.violation(format!("scenario=C13;{};mutation={}", sig, scenario), format!("{} -> {} (tables alone hold prefix {}, logs hold up to {})", m.show(), d, j0, n), replay(&m.show()));
